@@ -314,6 +314,17 @@ def _prepTgForSaving(
         newTierList = []
         for tier in tg["tiers"]:
             if tier["class"] == POINT_TIER:
+                # Nothing to fill in, but points have to lie inside the
+                # span of the saved textgrid just as intervals have to
+                for timestamp, _label in tier["entries"]:
+                    if minTimestamp is not None and timestamp < minTimestamp:
+                        raise errors.ParsingError(
+                            "The entries are shorter than the min time specified in the textgrid."
+                        )
+                    if maxTimestamp is not None and timestamp > maxTimestamp:
+                        raise errors.ParsingError(
+                            "The entries are longer than the max time specified in the textgrid."
+                        )
                 newTierList.append(tier)
                 continue
 
